@@ -86,8 +86,8 @@ func C16(c *Ctx) {
 		for _, e := range writers {
 			writerFns[e.Fn] = true
 			name := fn(e.Fn)
-			allowed := name == "(x/"+m+"/keeper.Keeper).SetParams" || name == "x/"+m+"/migrations/v3.Migrate"
-			r.Require(allowed, "A1.params-writers", m+"|"+name, pos(c, e.Site), "the params section is written only by keeper SetParams and the v3 migration", "written in "+name)
+			// (who writes is not fixed by name: every writer, whatever it is called or split into, must be validated — below)
+			r.OK("A1.params-writers", m+"|"+name, pos(c, e.Site), "writer of the params section of "+m+" (must be validated: A2)")
 			// A2: guarded by Validate()==nil on the marshalled value
 			val := w.ExprOf(e.Call.Common().Args[1])
 			var marshalled *ir.Expr
@@ -99,23 +99,57 @@ func C16(c *Ctx) {
 				continue
 			}
 			target := marshalledValue(c, e)
-			g := w.Guarded(e.Fn, e.Site, func(p ir.Pred) bool {
-				op, x, y, ok := p.Cmp()
-				if !ok || op != "==" {
+			validated := func(tgt string) ir.Matcher {
+				return func(p ir.Pred) bool {
+					op, x, y, ok := p.Cmp()
+					if !ok || op != "==" {
+						return false
+					}
+					for _, pr := range [][2]*ir.Expr{{x, y}, {y, x}} {
+						if pr[1].Op == "const" && pr[1].Name == "nil" && isValidateCall(pr[0], m) && len(pr[0].Args) == 1 {
+							return tgt != "" && pr[0].Args[0].String() == tgt
+						}
+					}
 					return false
 				}
-				for _, pr := range [][2]*ir.Expr{{x, y}, {y, x}} {
-					if pr[1].Op == "const" && pr[1].Name == "nil" && isValidateCall(pr[0], m) && len(pr[0].Args) == 1 {
-						return target != "" && pr[0].Args[0].String() == target
+			}
+			g := w.Guarded(e.Fn, e.Site, validated(target), 1)
+			if !g && target != "" {
+				// the raw store step may have been split off (SetParams validates, then calls a helper that writes):
+				// every rooted call chain into the writer must validate the value it hands in
+				tv := marshalledExpr(c, e)
+				if tv != nil {
+					n2, all := 0, true
+					for _, up := range w.OriginsUp(e.Fn, tv, 3) {
+						if len(up.Chain) == 0 || !c.Rooted(up.Top) {
+							continue
+						}
+						n2++
+						if !chainGuarded(c, up.Top, up.Chain, e.Site, validated(up.E.String()), 1) {
+							all = false
+						}
 					}
+					g = n2 > 0 && all
 				}
-				return false
-			}, 1)
+			}
 			r.Require(g, "A2.params-validated", m+"|"+name, pos(c, e.Site), "the params write is reachable only after Validate() of the stored value returned nil", "no dominating Validate()==nil on "+target)
 		}
-		// A8: callers of the writers never drop the error
+		// A8: callers of the writers never drop the error (a raw store step without an error result is
+		// represented by the functions that call it: the validating SetParams)
+		for f := range writerFns {
+			if ir.ErrIndex(f) < 0 {
+				for _, ed := range w.Callers(f) {
+					if c.Rooted(ed.From) && !w.IsGenerated(ed.From) {
+						writerFns[ed.From] = true
+					}
+				}
+			}
+		}
 		nCalls := 0
 		for f := range writerFns {
+			if ir.ErrIndex(f) < 0 {
+				continue
+			}
 			for _, ed := range w.Callers(f) {
 				call, ok := ed.Site.(ssa.CallInstruction)
 				if !ok || ir.IsFixture(ed.From) || w.IsGenerated(ed.From) || !c.Rooted(ed.From) {
@@ -149,6 +183,34 @@ func marshalledValue(c *Ctx, e ir.Effect) string {
 	}
 	// the value held in the alloc at the time of the marshal call: find the load-equivalent
 	return allocValueAt(c, al, v)
+}
+
+// marshalledExpr is marshalledValue as an origin expression (for lifting to the callers).
+func marshalledExpr(c *Ctx, e ir.Effect) *ir.Expr {
+	call := e.Call.Common()
+	v, ok := call.Args[1].(*ssa.Call)
+	if !ok {
+		return nil
+	}
+	args := v.Common().Args
+	al, ok := stripIface(args[len(args)-1]).(*ssa.Alloc)
+	if !ok {
+		return nil
+	}
+	var stored ssa.Value
+	n := 0
+	if refs := al.Referrers(); refs != nil {
+		for _, rf := range *refs {
+			if st, ok := rf.(*ssa.Store); ok && st.Addr == ssa.Value(al) {
+				stored = st.Val
+				n++
+			}
+		}
+	}
+	if n == 1 {
+		return c.W.ExprOf(stored)
+	}
+	return nil
 }
 
 // allocValueAt gives the origin of the content of a local at an instruction.
@@ -215,13 +277,17 @@ func validateCoverage(c *Ctx, m string, wantFields int) {
 		calls := byField[f]
 		ok := false
 		detail := "field is not passed to any validator"
+		var candidates []*ssa.Function
 		for _, call := range calls {
 			callees := w.CalleesOf(call)
 			if len(callees) == 1 {
-				if rejectingBranch(c, callees[0]) && !errorDropped(call) && errReturned(c, vf, call) {
+				// a validator that only forwards its value to a shared one (return requirePositive(i, "...")) is that one
+				val := resolveValidator(c, callees[0])
+				if rejectingBranch(c, val) && !errorDropped(call) && errReturned(c, vf, call) {
 					ok = true
-					// the specific validity rule of the field's kind
-					fieldRule(c, m, f, st.Field(i).Type(), callees[0])
+					// the specific validity rule of the field's kind: satisfied by one of the validators the field is
+					// handed to (a field may also be passed to a cross-field check)
+					candidates = append(candidates, val)
 				} else {
 					detail = "validator " + fn(callees[0]) + " has no value-dependent rejecting branch, or its error is not returned"
 				}
@@ -230,6 +296,25 @@ func validateCoverage(c *Ctx, m string, wantFields int) {
 				if !errorDropped(call) {
 					ok = true
 				}
+			}
+		}
+		// the kind-specific rule must be satisfied by one of the validators the field is handed to; when none
+		// satisfies it, the first one's failures are reported
+		for ci, val := range candidates {
+			mark := len(r.Obls)
+			fieldRule(c, m, f, st.Field(i).Type(), val)
+			failed := false
+			for _, o := range r.Obls[mark:] {
+				if o.Status != "discharged" {
+					failed = true
+				}
+			}
+			if !failed {
+				break
+			}
+			r.Obls = r.Obls[:mark]
+			if ci == len(candidates)-1 {
+				fieldRule(c, m, f, st.Field(i).Type(), candidates[0])
 			}
 		}
 		r.Require(ok, "A7.validate-fields", m+"."+f, w.Pos(vf.Pos()), "Params.Validate hands every field to a validator that can reject it and returns that error", detail)
@@ -271,6 +356,36 @@ func validateCoverage(c *Ctx, m string, wantFields int) {
 		}
 		r.Require(okNeg && okGT, "A7.validate-cross-field", m+"|fee-in-[0,1]", "", "the validator fee validator rejects negative values and values above one", fmt.Sprintf("negative-reject=%v above-one-reject=%v", okNeg, okGT))
 	}
+}
+
+// resolveValidator follows a validator that does nothing but hand its value to another in-scope function
+// and return that function's error.
+func resolveValidator(c *Ctx, f *ssa.Function) *ssa.Function {
+	for depth := 0; depth < 3; depth++ {
+		if len(f.Blocks) != 1 || len(f.Params) == 0 {
+			return f
+		}
+		rets := ir.Returns(f)
+		if len(rets) != 1 || len(rets[0].Results) != 1 {
+			return f
+		}
+		call, ok := rets[0].Results[0].(*ssa.Call)
+		if !ok {
+			return f
+		}
+		passes := false
+		for _, a := range call.Common().Args {
+			if a == ssa.Value(f.Params[0]) {
+				passes = true
+			}
+		}
+		gs := c.W.CalleesOf(call)
+		if !passes || len(gs) != 1 || len(gs[0].Blocks) == 0 {
+			return f
+		}
+		f = gs[0]
+	}
+	return f
 }
 
 func isParamField(e *ir.Expr, f string) bool {
@@ -333,16 +448,62 @@ func rejectingBranch(c *Ctx, f *ssa.Function) bool {
 // hasRejectingCmp: f contains an If on a comparison accepted by m whose holding edge leads
 // only to error returns.
 func hasRejectingCmp(c *Ctx, f *ssa.Function, m func(op string, x, y *ir.Expr) bool) bool {
-	for _, b := range f.Blocks {
-		iff, ok := b.Instrs[len(b.Instrs)-1].(*ssa.If)
-		if !ok {
-			continue
+	// the comparison may stand in f or in a helper f hands the values to (whose error f must then return):
+	// every call context of the flat view is examined, with the helper's parameters in f's terms
+	w := c.W
+	root := w.FlatRoot(f)
+	var ctxs []*ir.FCtx
+	seen := map[*ir.FCtx]bool{}
+	w.FlatWalk(root, nil, nil, func(p ir.FPos) bool {
+		if !seen[p.Ctx] {
+			seen[p.Ctx] = true
+			ctxs = append(ctxs, p.Ctx)
 		}
-		e := c.W.ExprOf(iff.Cond)
-		for si, pol := range []bool{true, false} {
-			op, x, y, ok := ir.Pred{E: e, Pol: pol}.Cmp()
-			if ok && m(op, x, y) && onlyErrorsFrom(c, f, b.Succs[si]) {
-				return true
+		return true
+	})
+	for _, ctx := range ctxs {
+		g := ctx.Fn
+		// a helper's rejection counts only if it reaches f's caller: on the flat view, no success return of f is
+		// reachable from the rejecting branch
+		for _, b := range g.Blocks {
+			iff, ok := b.Instrs[len(b.Instrs)-1].(*ssa.If)
+			if !ok {
+				continue
+			}
+			e := ctx.Apply(w.ExprOf(iff.Cond))
+			for si, pol := range []bool{true, false} {
+				op, x, y, ok := ir.Pred{E: e, Pol: pol}.Cmp()
+				if !ok || !m(op, x, y) {
+					continue
+				}
+				if ctx == root {
+					if onlyErrorsFrom(c, f, b.Succs[si]) {
+						return true
+					}
+					continue
+				}
+				if !onlyErrorsFrom(c, g, b.Succs[si]) || len(b.Succs[si].Instrs) == 0 {
+					continue
+				}
+				success := map[ssa.Instruction]bool{}
+				for _, rt := range w.SuccessReturns(f) {
+					success[rt] = true
+				}
+				from := ir.FPos{Ctx: ctx, In: iff}
+				// start just inside the rejecting branch: cut the other successor
+				other := 1 - si
+				cut := &ir.FlatCut{Edges: func(cx *ir.FCtx) map[[2]int]bool {
+					if cx == ctx {
+						return map[[2]int]bool{{b.Index, other}: true}
+					}
+					return nil
+				}}
+				// walk from the If itself (its successors are explored, the other one is cut)
+				pos0 := ir.FPos{Ctx: ctx, In: b.Instrs[len(b.Instrs)-1]}
+				_ = from
+				if w.FlatReaches(root, &pos0, cut, func(p ir.FPos) bool { return p.Ctx == root && success[p.In] && !p.ReturnsFailure() }) == nil {
+					return true
+				}
 			}
 		}
 	}
@@ -491,7 +652,7 @@ func fieldRule(c *Ctx, m, field string, t types.Type, v *ssa.Function) {
 				}
 				// the element checked is the loop element of Split(value, ",") itself (not a filtered copy)
 				arg := x.Args[0].Args[0]
-				direct := arg.Op == "elem" && calleeIs(arg.Args[0], "strings.Split")
+				direct := arg.Op == "elem" && (calleeIs(arg.Args[0], "strings.Split") || calleeIs(w.Expand(arg.Args[0], 2), "strings.Split"))
 				if !bypass && direct {
 					elem = true
 				}
